@@ -13,9 +13,12 @@ set_option linter.unusedSimpArgs false
 set_option linter.unusedVariables false
 
 theorem l3_full_le : L3Full .le := by l3_full
-theorem l3_pre_le : L3Pre .le := by l3_pre
+theorem l3_pre_lt_le : L3PreO .le .lt := by l3_pre
+theorem l3_pre_eq_le : L3PreO .le .eq := by l3_pre
+theorem l3_pre_gt_le : L3PreO .le .gt := by l3_pre
 theorem l3_part_le : L3Part .le := by l3_part
 
-theorem l3_npm_le : L3Npm .le := l3_assemble _ l3_full_le l3_pre_le l3_part_le
+theorem l3_npm_le : L3Npm .le :=
+  l3_assemble _ l3_full_le (l3_pre_assemble _ l3_pre_lt_le l3_pre_eq_le l3_pre_gt_le) l3_part_le
 
 end DepsDev.Proofs.C03
